@@ -127,6 +127,9 @@ static M_I: MDoc = MDoc {
   id: DID_I,
   methods: &[
     MMethod { id: "did:vx:issuer#m1", key: 0, general: false, rels: &[Rel::Assertion] },
+    // a method of another DID that carries m2's fragment, listed BEFORE m2: a lookup of the reference
+    // did:vx:issuer#m2 by its bare fragment would find this one (seed C02-o)
+    MMethod { id: "did:vx:foreign#m2", key: 8, general: true, rels: &[] },
     MMethod { id: "did:vx:issuer#m2", key: 1, general: true, rels: &[Rel::Assertion, Rel::CapInvocation] },
     MMethod { id: "did:vx:issuer#m3", key: 2, general: true, rels: &[] },
     MMethod { id: "did:vx:foreign#m4", key: 3, general: true, rels: &[] },
@@ -148,7 +151,7 @@ const K_M1: usize = 0;
 const K_M3: usize = 2;
 const K_SQUAT: usize = 6;
 
-static KEYS: Lazy<Vec<EdKey>> = Lazy::new(|| (1..=8u8).map(EdKey::new).collect());
+static KEYS: Lazy<Vec<EdKey>> = Lazy::new(|| (1..=9u8).map(EdKey::new).collect());
 
 fn did_of(url: &str) -> &str {
   url.split('#').next().unwrap_or(url)
